@@ -129,6 +129,21 @@ pub fn gen_msg(rng: &mut Rng, kind: usize, max_entries: usize) -> RMsg {
 }
 
 pub fn gen_rfile(rng: &mut Rng, max_entries: usize) -> RFile {
+    if max_entries >= 12 && rng.chance(1, 400) {
+        // counts that cross 2^8: a file of 255..258 messages, or a list with that many (small) entries
+        if rng.chance(1, 2) {
+            let n = rng.range(255, 258);
+            return RFile { msgs: (0..n).map(|_| gen_msg(rng, 1, 0)).collect() };
+        }
+        let n = rng.range(255, 258);
+        let mut m = gen_msg(rng, 2, 0);
+        if let RBody::GetList { entries, .. } = &mut m.body {
+            *entries = (0..n)
+                .map(|i| REntry { name: Hx(vec![(i % 251) as u8]), status: None, val_time: None, unit: None, scaler: None, value: RValue::U8((i % 256) as u8), sig: None })
+                .collect();
+        }
+        return RFile { msgs: vec![gen_msg(rng, 0, 0), m, gen_msg(rng, 1, 0)] };
+    }
     let msgs = match rng.below(6) {
         0 => vec![gen_msg(rng, 2, max_entries)],
         1 => {
